@@ -5,6 +5,7 @@ import (
 	"go/constant"
 	"go/token"
 	"go/types"
+	"net"
 	"regexp"
 	"sort"
 	"strings"
@@ -27,7 +28,7 @@ func init() {
 	register(&Property{
 		ID:        "C08",
 		Title:     "Rendered iptables/nftables rules match exactly what the policy rule says",
-		Technique: "static analysis: field-coverage, call-string-sensitive may-derive data flow from proto.Rule fields to MatchCriteria methods, forward flow of matches into Rule literals, phi/guard table of the action switch, constant format-string pairing of sibling matchers, must-be-fresh origin analysis of written messages, guard (cut) analysis of version-dependent choices resolved to the root parameter (go/ssa over felix/rules, felix/iptables, felix/nftables)",
+		Technique: "static analysis: field-coverage, call-string-sensitive may-derive data flow from proto.Rule fields to MatchCriteria methods, forward flow of matches into Rule literals, phi/guard table of the action switch, constant format-string pairing of sibling matchers, must-be-fresh origin analysis of written messages, guard (cut) analysis of version-dependent choices resolved to the root parameter, per-path operand coverage of the mark-action renderers, typestate abstract interpretation of the match-block builder (go/ssa over felix/rules, felix/iptables, felix/nftables)",
 		DesignRef: "DESIGN.md §3 C08",
 		Explanation: "Decides structural necessary conditions of exact rendering: (cover) every match field of proto.Rule is read in the closure of ProtoRuleToIptablesRules and reaches at least one MatchCriteria method of its family; " +
 			"(wiring) at every MatchCriteria call reachable from ProtoRuleToIptablesRules, in every feasible call-string context, each argument derived from rule field F is passed to a matcher of F's family, F's direction (Src↔Source, Dst↔Dest) and F's polarity, " +
@@ -36,8 +37,11 @@ func init() {
 			"(actions) in CombineMatchAndActionsForProtoRule the mark set on match is MarkAccept exactly under \"\"/allow, MarkPass under pass/next-tier, MarkDrop under deny (with the deny action; allow/pass return), the SetMark rule carries the full match, and unknown actions panic; " +
 			"(nft) for both back ends every Not* matcher renders its positive sibling's fragment with exactly one negation operator, and Source*/Dest* siblings render different fragments; " +
 			"(private) every write into a felix/proto message reachable from ProtoRuleToIptablesRules / FilterRuleToIPVersion inside felix/rules targets, on every phi/return path and in every call-string context, a fresh allocation or a deep copy (proto.Clone / Clone* / DeepCopy*), never the rule passed in by the caller (which is rendered again for the other IP version / table / re-render); " +
-			"(ipver) within one rendering every IPv4/IPv6-dependent choice — use or selection of Config.IPSetConfigV4 vs V6, ICMP* vs ICMPV6* matcher, the version handed to FilterRuleToIPVersion and to every helper that receives it — is decided on the ipVersion parameter of ProtoRuleToIptablesRules (resolved through the call string, closures and captured variables), never on the rule's optional ip_version field or a constant.",
-		NotDecided: "Kernel evaluation of the rendered rules; port-split arithmetic (SplitPortList 15-slot packing), CIDR/IP-version filtering arithmetic, the algebra of the mark-bit blocks (that OR-within-block / AND-across-blocks is what the emitted sequence computes), textual syntax accepted by iptables-restore/nft; mutation of the caller's rule through opaque callees (sort, proto.Merge, append into a shared backing array) or by renderers outside felix/rules; whether callers pass an ipVersion that agrees with the table the rules are programmed into.",
+			"(ipver) within one rendering every IPv4/IPv6-dependent choice — use or selection of Config.IPSetConfigV4 vs V6, ICMP* vs ICMPV6* matcher, the version handed to FilterRuleToIPVersion and to every helper that receives it — is decided on the ipVersion parameter of ProtoRuleToIptablesRules (resolved through the call string, closures and captured variables), never on the rule's optional ip_version field or a constant; a helper that has no version parameter may take such decisions only where its callers' guards establish them (ipver/arg/<fn>/none), and the IPv4/IPv6 classification of a rule CIDR is only compared with a test of that parameter (ipver/family); " +
+			"(catchall) a rule CIDR is compared with a /0 literal (\"matches everything\": drop the rule / elide the match) only where it is established to be of the family being rendered — under a test of the ipVersion for the literal's family, or behind the family filter on the same CIDR; " +
+			"(markops) in both back ends every Action type with uint32 operands (SetMark, ClearMark, SetMaskedMark, SetConnMark, Save/RestoreConnMark, LimitPacketRate) uses each operand on every rendering path of ToFragment unless a guard fixes its value, and the bit-complemented operand (`mark & ^x`) is the Mask; " +
+			"(blockbit) typestate of the two scratch bits over every rule sequence matchBlockBuilder can emit, by abstract interpretation of its SSA with the builder's bool flags tracked concretely: markThisBlockPass is reset before every block that accumulates into it and never matched on while stale or uninitialised; markAllBlocksPass is initialised before its first use, OR-accumulated only on a fresh 0, AND-ed (conditionally cleared) only when it can be 1, and never re-initialised or set once it holds a block's result.",
+		NotDecided: "Kernel evaluation of the rendered rules; port-split arithmetic (SplitPortList 15-slot packing), CIDR/IP-version filtering arithmetic, the full algebra of the mark-bit blocks (blockbit decides the reset/initialise/accumulate protocol of the two bits, not that each block's alternatives are the right ones; a design that alternates the polarity of the scratch bit per block would be reported although it can be correct), textual syntax accepted by iptables-restore/nft; mutation of the caller's rule through opaque callees (sort, proto.Merge, append into a shared backing array) or by renderers outside felix/rules; whether callers pass an ipVersion that agrees with the table the rules are programmed into; catch-all tests that are not an ==/!=/switch comparison with a /0 literal (parsed prefix length, set lookup); a two-pass filter (family filter in one loop, catch-all test over its result in another) is reported as undecided, not decided.",
 		Assumptions: []string{
 			"go/types + go/ssa (x/tools v0.50.0) model of the current source, CGO_ENABLED=0 build",
 			"a call without an analysable body returns data derived only from its arguments/receiver",
@@ -90,6 +94,37 @@ func init() {
 				Old: "ruleCopy := FilterRuleToIPVersion(ipVersion, pRule)", New: "ruleCopy := FilterRuleToIPVersion(uint8(pRule.IpVersion), pRule)", Expect: "C08.ipver/arg/FilterRuleToIPVersion/0"},
 			{Name: "negated CIDRs filtered for a fixed IP version", File: "felix/rules/policy.go",
 				Old: "filterNets(pRule.NotDstNet, ipVersion, true)", New: "filterNets(pRule.NotDstNet, 4, true)", Expect: "C08.ipver/arg/filterNets/1"},
+			{Name: "negated catch-all CIDR of the other family drops the rule (check hoisted in front of the family filter, inline)", File: "felix/rules/policy.go",
+				Old:    "\t\tif isV6 != wantV6 {\n\t\t\tcontinue\n\t\t}\n\n\t\t// Check for catch-all CIDR in negated context, which creates logical contradictions\n\t\tif isNegated && isCatchAllCIDR(net, ipVersion) {",
+				New:    "\t\tif isV6 != wantV6 && !(isNegated && (net == \"0.0.0.0/0\" || net == \"::/0\")) {\n\t\t\tcontinue\n\t\t}\n\n\t\tif isNegated && (net == \"0.0.0.0/0\" || net == \"::/0\") {",
+				Expect: "C08.catchall/filterNets/v6"},
+			{Name: "catch-all predicate loses its version test and is asked before the family filter (seed C08-3)", File: "felix/rules/policy.go",
+				Old:    "\t\tisV6 := strings.Contains(net, \":\")\n\t\tif isV6 != wantV6 {\n\t\t\tcontinue\n\t\t}\n\n\t\t// Check for catch-all CIDR in negated context, which creates logical contradictions\n\t\tif isNegated && isCatchAllCIDR(net, ipVersion) {\n\t\t\tlogrus.WithFields(logrus.Fields{\n\t\t\t\t\"cidr\":      net,\n\t\t\t\t\"ipVersion\": ipVersion,\n\t\t\t\t\"negated\":   isNegated,\n\t\t\t}).Warn(\"Ignoring rule with negated catch-all CIDR to prevent iptables logical contradiction\")\n\t\t\t// Return filteredAll=true to indicate the entire rule should be dropped\n\t\t\treturn nil, true\n\t\t}\n\n\t\tfiltered = append(filtered, net)\n\t\tfilteredAll = false\n\t}\n\treturn\n}\n\n// isCatchAllCIDR returns true if the CIDR represents \"all addresses\" for the given IP version.\n// This is used to detect problematic negated matches that would create logical contradictions.\nfunc isCatchAllCIDR(cidr string, ipVersion uint8) bool {\n\treturn (ipVersion == 4 && cidr == \"0.0.0.0/0\") || (ipVersion == 6 && cidr == \"::/0\")",
+				New:    "\t\tif isNegated && isCatchAllCIDR(net) {\n\t\t\treturn nil, true\n\t\t}\n\t\tisV6 := strings.Contains(net, \":\")\n\t\tif isV6 != wantV6 {\n\t\t\tcontinue\n\t\t}\n\n\t\tfiltered = append(filtered, net)\n\t\tfilteredAll = false\n\t}\n\treturn\n}\n\nfunc isCatchAllCIDR(cidr string) bool {\n\treturn cidr == \"0.0.0.0/0\" || cidr == \"::/0\"",
+				Expect: "C08.ipver/arg/isCatchAllCIDR/none"},
+			{Name: "positive CIDRs filtered by the rule's optional ip_version instead of the rendered one", File: "felix/rules/policy.go",
+				Old: "filterNets(pRule.SrcNet, ipVersion, false)", New: "filterNets(pRule.SrcNet, uint8(pRule.IpVersion), false)", Expect: "C08.ipver/family/filterNets"},
+			{Name: "nft masked mark set with Mark==0 delegates to a clear of the Mark bits, i.e. of nothing (seed C08-4)", File: "felix/nftables/actions.go",
+				Old:    "func (c SetMaskedMarkAction) ToFragment(features *environment.Features) string {\n",
+				New:    "func (c SetMaskedMarkAction) ToFragment(features *environment.Features) string {\n\tif c.Mark == 0 {\n\t\treturn ClearMarkAction{Mark: c.Mark}.ToFragment(features)\n\t}\n",
+				Expect: "C08.markops/uses/nftables.SetMaskedMarkAction/Mask"},
+			{Name: "iptables masked mark set renders the mark as its own mask", File: "felix/iptables/actions.go",
+				Old:    "func (c SetMaskedMarkAction) ToFragment(features *environment.Features) string {\n\treturn fmt.Sprintf(\"--jump MARK --set-mark %#x/%#x\", c.Mark, c.Mask)",
+				New:    "func (c SetMaskedMarkAction) ToFragment(features *environment.Features) string {\n\treturn fmt.Sprintf(\"--jump MARK --set-mark %#x/%#x\", c.Mark, c.Mark)",
+				Expect: "C08.markops/uses/iptables.SetMaskedMarkAction/Mask"},
+			{Name: "nft connmark set keeps the complement of the mark instead of the mask", File: "felix/nftables/actions.go",
+				Old:    "fmt.Sprintf(\"ct mark set ct mark & %#x ^ %#x\", (c.Mask ^ 0xffffffff), c.Mark)",
+				New:    "fmt.Sprintf(\"ct mark set ct mark & %#x ^ %#x\", (c.Mark ^ 0xffffffff), c.Mask)",
+				Expect: "C08.markops/complement/nftables.SetConnMarkAction"},
+			{Name: "initial rule no longer resets the this-block scratch bit", File: "felix/rules/policy.go",
+				Old: "r.markAllBlocksPass|r.markThisBlockPass,", New: "r.markAllBlocksPass,",
+				Expect: "C08.blockbit/markThisBlockPass/matchBlockBuilder.finishPositiveBlock/MarkClear/uninit"},
+			{Name: "first-positive-block latch never set: later positive blocks OR into the all-blocks bit", File: "felix/rules/policy.go",
+				Old: "r.doneFirstPositiveMatchBlock = true", New: "r.doneFirstPositiveMatchBlock = false",
+				Expect: "C08.blockbit/markAllBlocksPass/matchBlockBuilder.AppendCIDRMatchBlock/SetMark/clobber"},
+			{Name: "negated first block starts from a cleared all-blocks bit", File: "felix/rules/policy.go",
+				Old: "r.maybeAppendInitialRule(r.markAllBlocksPass)", New: "r.maybeAppendInitialRule(0)",
+				Expect: "C08.blockbit/markAllBlocksPass/matchBlockBuilder.AppendNegatedCIDRMatchBlock/ClearMark/never"},
 			{Name: "nft DestIPSet matches on saddr", File: "felix/nftables/match_builder.go",
 				Old: "fmt.Sprintf(\"<IPV> daddr @%s\", LegalizeSetName(name))", New: "fmt.Sprintf(\"<IPV> saddr @%s\", LegalizeSetName(name))", Expect: "C08.nft/direction/nftables.nftMatch.DestIPSet"},
 		},
@@ -278,9 +313,16 @@ func runC08(c *Ctx) {
 	c08Siblings(m)
 
 	c.Rule("C08.private", "E-FLOW", "every write into a felix/proto message in the closure of ProtoRuleToIptablesRules / FilterRuleToIPVersion targets, on every path and in every call-string context, a fresh allocation or deep copy — never the caller's rule", 12)
-	c.Rule("C08.ipver", "E-GUARD", "every IPv4/IPv6-dependent choice of one rendering (IPSetConfigV4/V6 use, ICMP vs ICMPV6 matcher, version argument of helpers) is decided on the ipVersion parameter of ProtoRuleToIptablesRules", 16)
+	c.Rule("C08.ipver", "E-GUARD", "every IPv4/IPv6-dependent choice of one rendering (IPSetConfigV4/V6 use, ICMP vs ICMPV6 matcher, version argument of helpers) is decided on the ipVersion parameter of ProtoRuleToIptablesRules; a helper without a version parameter takes such decisions only under its callers' guards", 17)
+	c.Rule("C08.catchall", "E-GUARD", "a rule CIDR is only judged 'catch-all' (/0 — drop the rule / elide the match) where it is established to be of the IP family being rendered: the comparison is guarded by a test of the rendering's ipVersion for the literal's family, or by the family filter on the same CIDR", 2)
 	c08Private(m)
 	c08IPVer(m)
+
+	c.Rule("C08.markops", "E-FLOW", "per back end, every Action type with uint32 (mark word / mask) operands: each rendering path of ToFragment uses each operand unless a guard fixes its value (operand == constant), and the bit-complemented operand is the Mask", 20)
+	c08MarkOps(m)
+
+	c.Rule("C08.blockbit", "E-ORDER", "typestate of the two scratch bits over every rule sequence matchBlockBuilder can emit (builder flags tracked concretely): the this-block bit is reset before each block that accumulates into it and never read stale/uninitialised; the all-blocks bit is initialised before use, OR-accumulated only on a fresh 0, never re-initialised or set once it holds a block result", 10)
+	c08BlockBits(m)
 }
 
 // -------------------------------------------------------------------- cover --
@@ -1483,9 +1525,92 @@ func c08IPVer(m *c08Model) {
 	}
 	famName := map[bool]string{true: "ipVersion == 4", false: "ipVersion != 4 (or == 6)"}
 
+	// verTest: v is (a boolean identical to) a comparison of the rendering's
+	// ipVersion with 4 or 6.  is6 = the comparison being true means "IPv6";
+	// onVer = the compared value really is the rendering's version (false for a
+	// comparison of the same shape on something else, e.g. a constant).
+	verTest := func(v ssa.Value, ctx *c08Ctx) (is6, onVer, ok bool) {
+		ls := c08ValueLeaves(v, ctx, m.inRP)
+		if len(ls) != 1 {
+			return false, false, false
+		}
+		cond, pol := stripNot(ls[0].V, true)
+		bo, isBin := cond.(*ssa.BinOp)
+		if !isBin || (bo.Op != token.EQL && bo.Op != token.NEQ) {
+			return false, false, false
+		}
+		if bo.Op == token.NEQ {
+			pol = !pol
+		}
+		var k constant.Value
+		var other ssa.Value
+		if kv, isK := constOf(bo.Y); isK {
+			k, other = kv, bo.X
+		} else if kv, isK := constOf(bo.X); isK {
+			k, other = kv, bo.Y
+		}
+		if k == nil || k.Kind() != constant.Int {
+			return false, false, false
+		}
+		switch k.ExactString() {
+		case "4":
+			is6 = !pol
+		case "6":
+			is6 = pol
+		default:
+			return false, false, false
+		}
+		return is6, isVer(other, ls[0].Ctx), true
+	}
+	// dependsOnVer: the rendering's ipVersion is among the operands cond is
+	// computed from (in ctx).
+	var dependsOnVer func(v ssa.Value, ctx *c08Ctx, depth int) bool
+	dependsOnVer = func(v ssa.Value, ctx *c08Ctx, depth int) bool {
+		if v == nil || depth > 8 {
+			return false
+		}
+		if isVer(v, ctx) {
+			return true
+		}
+		for _, l := range c08ValueLeaves(v, ctx, m.inRP) {
+			if l.V == v && l.Ctx == ctx {
+				continue
+			}
+			if dependsOnVer(l.V, l.Ctx, depth+1) {
+				return true
+			}
+		}
+		if in, ok := v.(ssa.Instruction); ok {
+			if _, isPhi := v.(*ssa.Phi); isPhi {
+				return false // already resolved through the leaves
+			}
+			for _, op := range in.Operands(nil) {
+				if op != nil && *op != nil && dependsOnVer(*op, ctx, depth+1) {
+					return true
+				}
+			}
+		}
+		return false
+	}
+	// Family decisions made by each function (for the arg/<fn>/none obligation).
+	// (one decision per instruction, and-ed over the contexts it is reached in)
+	decs := map[*ssa.Function]map[ssa.Instruction]bool{}
+	noteDec := func(fn *ssa.Function, at ssa.Instruction, ok bool) {
+		fn = topFn(fn)
+		if decs[fn] == nil {
+			decs[fn] = map[ssa.Instruction]bool{}
+		}
+		if prev, seen := decs[fn][at]; seen {
+			ok = ok && prev
+		}
+		decs[fn][at] = ok
+	}
+	receivesVer := map[*ssa.Function]bool{}
+
 	type agg struct {
 		site string
 		bad  []string
+		und  []string
 		n    int
 	}
 	res := map[string]*agg{}
@@ -1532,6 +1657,7 @@ func c08IPVer(m *c08Model) {
 						args[k] = st
 					}
 					st.nVer++
+					receivesVer[topFn(ctx.fn)] = true
 				} else if b, ok := types.Unalias(ctx.fn.Params[i].Type()).(*types.Basic); ok && b.Kind() == types.Uint8 {
 					if st == nil {
 						st = &argStat{site: p.Pos(ctx.call.Pos())}
@@ -1553,6 +1679,8 @@ func c08IPVer(m *c08Model) {
 						mk := family(v4)
 						refs := ld.Referrers()
 						uses := 0
+						bad0 := len(a.bad)
+						defer func() { noteDec(fn, in, len(a.bad) == bad0) }()
 						if refs != nil {
 							for _, r := range *refs {
 								if _, dbg := r.(*ssa.DebugRef); dbg {
@@ -1586,13 +1714,159 @@ func c08IPVer(m *c08Model) {
 				if c08ClassifyMethod(meth).Fam == "icmp" {
 					v4 := !strings.Contains(meth, "ICMPV6")
 					a := get("C08.ipver/icmp/"+fnName(topFn(fn))+"/"+meth, p.Pos(in.Pos()))
-					if !c08EstablishedAt(call, ctx, family(v4)) {
+					est := c08EstablishedAt(call, ctx, family(v4))
+					noteDec(fn, in, est)
+					if !est {
 						a.bad = append(a.bad, fmt.Sprintf("in context %s %s is called on a path where %s is not established on the rendering's ipVersion parameter", ctx, meth, famName[v4]))
+					}
+				}
+			}
+			// family: classification of a rule CIDR as IPv4/IPv6
+			if call, ok := in.(*ssa.Call); ok && c08IsCIDRFamilyTest(call) && m.ev.feasible(in, ctx) {
+				if c08DerivesFromNetField(m.ev.facts(call.Common().Args[0], ctx)) {
+					a := get("C08.ipver/family/"+fnName(topFn(fn)), p.Pos(in.Pos()))
+					good := true
+					var uses func(v ssa.Value, depth int)
+					uses = func(v ssa.Value, depth int) {
+						refs := v.Referrers()
+						if refs == nil || depth > 4 {
+							return
+						}
+						for _, r := range *refs {
+							if _, dbg := r.(*ssa.DebugRef); dbg {
+								continue
+							}
+							if u, isNot := r.(*ssa.UnOp); isNot && u.Op == token.NOT {
+								uses(u, depth+1) // "is IPv4" = !"is IPv6"
+								continue
+							}
+							bo, isCmp := r.(*ssa.BinOp)
+							if !isCmp || (bo.Op != token.EQL && bo.Op != token.NEQ) {
+								a.und = append(a.und, fmt.Sprintf("in context %s the IPv4/IPv6 classification of a rule CIDR is used at %s other than in a comparison with a test of the ipVersion; cannot tie it to the rendering's version", ctx, p.Pos(r.Pos())))
+								continue
+							}
+							other := bo.X
+							if other == v {
+								other = bo.Y
+							}
+							if _, onVer, isTest := verTest(other, ctx); !isTest {
+								a.und = append(a.und, fmt.Sprintf("in context %s the IPv4/IPv6 classification of a rule CIDR is compared with %s, which is not a recognisable test of the ipVersion", ctx, path(other)))
+							} else if !onVer {
+								good = false
+								a.bad = append(a.bad, fmt.Sprintf("in context %s the IPv4/IPv6 family of a rule CIDR is compared with a version test on %s, which is not the ipVersion being rendered (CIDRs of the wrong family are kept / the right ones dropped)", ctx, path(other)))
+							}
+						}
+					}
+					uses(call, 0)
+					noteDec(fn, in, good)
+				}
+			}
+			// catchall: a CIDR judged to be "all addresses"
+			if bo, ok := in.(*ssa.BinOp); ok && m.ev.feasible(in, ctx) {
+				if lit, other, v4, is := c08CatchAllCmp(bo); is {
+					famTag := map[bool]string{true: "v4", false: "v6"}[v4]
+					a := get("C08.catchall/"+fnName(topFn(fn))+"/"+famTag, p.Pos(in.Pos()))
+					strLeaves := c08ValueLeaves(other, ctx, m.inRP)
+					// (b) the family filter on the same CIDR: an edge on which
+					// isV6(cidr) agrees with "the rendering is IPv6".
+					famFilter := func(cx *c08Ctx) EdgePred {
+						return func(cond ssa.Value, pol bool) bool {
+							cmp, isCmp := cond.(*ssa.BinOp)
+							if !isCmp || (cmp.Op != token.EQL && cmp.Op != token.NEQ) {
+								return false
+							}
+							agree := pol
+							if cmp.Op == token.NEQ {
+								agree = !agree
+							}
+							for _, xy := range [][2]ssa.Value{{cmp.X, cmp.Y}, {cmp.Y, cmp.X}} {
+								clsV, clsIs6 := stripNot(xy[0], true)
+								cls := c08ValueLeaves(clsV, cx, m.inRP)
+								if len(cls) != 1 {
+									continue
+								}
+								lv, lpol := stripNot(cls[0].V, clsIs6)
+								clsIs6 = lpol
+								cl, isCall := lv.(*ssa.Call)
+								if !isCall || !c08IsCIDRFamilyTest(cl) || !c08SameLeaves(c08ValueLeaves(cl.Common().Args[0], cls[0].Ctx, m.inRP), strLeaves) {
+									continue
+								}
+								is6, onVer, isTest := verTest(xy[1], cx)
+								if !isTest || !onVer {
+									continue
+								}
+								// clsIs6: the classification operand being true means IPv6;
+								// is6: the version test being true means IPv6;
+								// agree: the two operands are equal on this edge.
+								return agree == (is6 == clsIs6)
+							}
+							return false
+						}
+					}
+					// a guard that depends on the version in some other way than the
+					// two recognised shapes (whose polarity has been judged above)
+					verDep := func(cx *c08Ctx) EdgePred {
+						return func(cond ssa.Value, pol bool) bool {
+							if !dependsOnVer(cond, cx, 0) {
+								return false
+							}
+							if _, _, isTest := verTest(cond, cx); isTest {
+								return false
+							}
+							if cmp, isCmp := cond.(*ssa.BinOp); isCmp && (cmp.Op == token.EQL || cmp.Op == token.NEQ) {
+								for _, xy := range [][2]ssa.Value{{cmp.X, cmp.Y}, {cmp.Y, cmp.X}} {
+									if _, _, isTest := verTest(xy[1], cx); !isTest {
+										continue
+									}
+									v, _ := stripNot(xy[0], true)
+									for _, l := range c08ValueLeaves(v, cx, m.inRP) {
+										lv, _ := stripNot(l.V, true)
+										if cl, isCall := lv.(*ssa.Call); isCall && c08IsCIDRFamilyTest(cl) {
+											return false
+										}
+									}
+								}
+							}
+							return true
+						}
+					}
+					switch {
+					case c08EstablishedAt(bo, ctx, family(v4)) || c08EstablishedAt(bo, ctx, famFilter):
+						noteDec(fn, in, true)
+					case c08EstablishedAt(bo, ctx, verDep):
+						noteDec(fn, in, true)
+						a.und = append(a.und, fmt.Sprintf("in context %s the comparison with the catch-all CIDR %q is guarded by a condition that depends on the ipVersion, but not in a recognised form (version test, or family filter on the same CIDR)", ctx, lit))
+					case !c08DirectRuleElems(strLeaves, m.inRP):
+						noteDec(fn, in, true)
+						a.und = append(a.und, fmt.Sprintf("in context %s the CIDR compared with the catch-all %q does not come straight from a rule's CIDR list; it may have been filtered to the rendered family elsewhere", ctx, lit))
+					default:
+						noteDec(fn, in, false)
+						a.bad = append(a.bad, fmt.Sprintf("in context %s a rule CIDR is compared with the catch-all %q without the CIDR having been established to be of the IP family being rendered (no test of the ipVersion and no family filter on the same CIDR on the way): the other family's /0 in a mixed-family list is judged \"matches everything\" and the whole rule is dropped / the match elided for this IP version", ctx, lit))
 					}
 				}
 			}
 		})
 	})
+	// A function that takes IPv4/IPv6-dependent decisions but is not handed the
+	// rendering's version: fine only if every decision is established by its
+	// callers' guards.
+	for fn, d := range decs {
+		if fn == m.root || receivesVer[fn] {
+			continue
+		}
+		nBad := 0
+		for _, ok := range d {
+			if !ok {
+				nBad++
+			}
+		}
+		k := fmt.Sprintf("C08.ipver/arg/%s/none", fnName(fn))
+		if nBad > 0 {
+			c.Violate(k, p.Pos(fn.Pos()), "%s takes %d IPv4/IPv6-dependent decision(s) (IP set config, ICMP matcher family, CIDR family / catch-all test) but has no parameter that receives the ipVersion being rendered, and %d of them are not established by its callers' guards either", fnName(fn), len(d), nBad)
+		} else {
+			c.Ok(k, p.Pos(fn.Pos()), "no version parameter needed: all %d IPv4/IPv6-dependent decision(s) are established by the callers' guards", len(d))
+		}
+	}
 	// Fail closed: reads of the two config fields in dynamically reached code.
 	for fn := range p.closure(m.root) {
 		if fn.Blocks == nil || !m.inRP(fn) {
@@ -1611,9 +1885,12 @@ func c08IPVer(m *c08Model) {
 	}
 	for _, key := range sortedKeys(res) {
 		a := res[key]
-		if len(a.bad) > 0 {
+		switch {
+		case len(a.bad) > 0:
 			c.Violate(key, a.site, "%s", strings.Join(c08Uniq(a.bad), " | "))
-		} else {
+		case len(a.und) > 0:
+			c.Undecided(key, a.site, "%s", strings.Join(c08Uniq(a.und), " | "))
+		default:
 			c.Ok(key, a.site, "version family established on the ipVersion parameter in %d context(s)", a.n)
 		}
 	}
@@ -1628,4 +1905,109 @@ func c08IPVer(m *c08Model) {
 			c.Ok(key, st.site, "receives the rendering's ipVersion in all %d context(s)", st.nVer)
 		}
 	}
+}
+
+// c08IsCIDRFamilyTest: strings.Contains(x, ":") — the code's test for "this
+// CIDR/address string is IPv6".
+func c08IsCIDRFamilyTest(call *ssa.Call) bool {
+	f := calleeOf(call.Common())
+	if f == nil || f.Pkg() == nil || f.Pkg().Path() != "strings" || f.Name() != "Contains" || len(call.Common().Args) != 2 {
+		return false
+	}
+	k, ok := call.Common().Args[1].(*ssa.Const)
+	return ok && k.Value != nil && k.Value.Kind() == constant.String && constant.StringVal(k.Value) == ":"
+}
+
+func c08DerivesFromNetField(f *c08Facts) bool {
+	for q := range f.Fields {
+		if strings.HasPrefix(q, "Rule.") && c08ClassifyField(strings.TrimPrefix(q, "Rule.")).Fam == "net" {
+			return true
+		}
+	}
+	return false
+}
+
+// c08CatchAllCmp: bo compares a string with a constant that is a CIDR of prefix
+// length 0 ("0.0.0.0/0", "::/0", and any other spelling net.ParseCIDR accepts).
+func c08CatchAllCmp(bo *ssa.BinOp) (lit string, other ssa.Value, v4, ok bool) {
+	if bo.Op != token.EQL && bo.Op != token.NEQ {
+		return
+	}
+	for _, xy := range [][2]ssa.Value{{bo.X, bo.Y}, {bo.Y, bo.X}} {
+		k, isK := xy[0].(*ssa.Const)
+		if !isK || k.Value == nil || k.Value.Kind() != constant.String {
+			continue
+		}
+		s := constant.StringVal(k.Value)
+		ip, n, err := net.ParseCIDR(s)
+		if err != nil {
+			continue
+		}
+		if ones, _ := n.Mask.Size(); ones != 0 {
+			continue
+		}
+		return s, xy[1], ip.To4() != nil, true
+	}
+	return
+}
+
+func c08SameLeaves(a, b []c08Leaf) bool {
+	if len(a) == 0 || len(a) != len(b) {
+		return false
+	}
+	for _, x := range a {
+		hit := false
+		for _, y := range b {
+			if x.V == y.V && x.Ctx == y.Ctx {
+				hit = true
+			}
+		}
+		if !hit {
+			return false
+		}
+	}
+	return true
+}
+
+// c08DirectRuleElems: every leaf is an element read straight out of a []string
+// field of a felix/proto message (or of a parameter of the outermost function).
+func c08DirectRuleElems(ls []c08Leaf, bodyOK func(*ssa.Function) bool) bool {
+	if len(ls) == 0 {
+		return false
+	}
+	for _, l := range ls {
+		v := l.V
+		if u, ok := v.(*ssa.UnOp); ok && u.Op == token.MUL {
+			v = u.X
+		}
+		var base ssa.Value
+		switch x := v.(type) {
+		case *ssa.IndexAddr:
+			base = x.X
+		case *ssa.Index:
+			base = x.X
+		default:
+			return false
+		}
+		for _, bl := range c08ValueLeaves(base, l.Ctx, bodyOK) {
+			switch y := bl.V.(type) {
+			case *ssa.Parameter:
+				// parameter of the outermost function: the caller's list
+			case *ssa.UnOp:
+				fa, ok := y.X.(*ssa.FieldAddr)
+				if y.Op != token.MUL || !ok || !c08IsProtoMsg(fa.X.Type()) {
+					return false
+				}
+			case *ssa.Call:
+				// generated getter of a proto message
+				f := calleeOf(y.Common())
+				if f == nil || !strings.HasPrefix(f.Name(), "Get") || len(y.Common().Args) != 1 || !c08IsProtoMsg(y.Common().Args[0].Type()) {
+					return false
+				}
+			default:
+				return false
+			}
+		}
+	}
+	return true
 }
